@@ -18,6 +18,7 @@ import Goat.Driver.Host
 import Goat.Driver.Backtrace
 import Goat.Driver.MiniGo
 import Goat.Driver.Resolve
+import Goat.Driver.Struct
 /-! goatmodel: one operation per input line, one canonical output line per operation. -/
 open Goat.Driver
 
@@ -29,6 +30,7 @@ structure DriverState where
   heap : Goat.Print.Heap := []
   rl : RlState := {}
   rs : Goat.Resolve.Tab := { keys := [], compiled := [] }
+  st : Goat.Struct.Heap Int := default
 
 def step (st : DriverState) (line : String) : DriverState × String :=
   match (line.trimAscii.toString.splitOn " ").filter (· ≠ "") with
@@ -49,6 +51,7 @@ def step (st : DriverState) (line : String) : DriverState × String :=
   | "slice" :: args => let (s, o) := sliceCmd st.slice args; ({ st with slice := s }, o)
   | "call" :: args => (st, callCmd args)
   | "cf" :: args => (st, cfCmd args)
+  | "st" :: args => let (h, o) := stCmd st.st args; ({ st with st := h }, o)
   | "imap" :: args => let (s, o) := imapCmd st.imap args; ({ st with imap := s }, o)
   | "verify" :: args => (st, verifyCmd args)
   | "effect" :: args => (st, effectCmd args)
